@@ -201,6 +201,14 @@ Theorem C07_reader_safe_range_only_widens :
 Proof. exact range_only_widens. Qed.
 Print Assumptions C07_reader_safe_range_only_widens.
 
+(* TokenLIDs.GetLIDs is ONE step under the merge mutex (Model.merge_tok): whoever calls it, in whatever order, gets every
+   LID that was queued or sorted before the call - two readers of one token never hide queued LIDs from each other *)
+Theorem C07_getlids_atomic_complete :
+  forall x lid, In lid (posting x) ->
+    In lid (tl_sorted (merge_tok x)) /\ In lid (tl_sorted (merge_tok (merge_tok x))).
+Proof. exact getlids_atomic_complete. Qed.
+Print Assumptions C07_getlids_atomic_complete.
+
 (* ------------------------------------------------------------------ witnesses *)
 Local Open Scope N_scope.
 Definition d1 := mkDoc (10, 1) [0; 1] 1.
@@ -272,3 +280,17 @@ Example C07_quiescent_nonvacuous :
   (exists f, nth_error (fracs st) 0 = Some f /\ f_wg f = 0%nat /\ length (f_ldocs f) = 3%nat /\ f_total f = 2%nat)
   /\ last (run c st [LSnap 0; LSB 0 0 1; LR 0; LR 0; LR 0; LR 0]) OUnit = ORes [(10, 1)].
 Proof. split; [eexists; split; [vm_compute; reflexivity|]; repeat split|]; vm_compute; reflexivity. Qed.
+
+(* the seeded regression (queue detached before sortedMu is taken) as a two-step variant: LID 2 of an acknowledged
+   document is queued, no writer is active; reader A detaches the queue, reader B runs GetLIDs completely in between
+   and gets the OLD sorted list without LID 2; the atomic step gives both readers [1; 2]. Replayed on the real code
+   by the schedule `getlids-overlap` (harness probe) with reader A held inside GetLIDs. *)
+Example C07_getlids_split_v0_refuted :
+  let x := mkTl 1%N [1%nat] [2%nat] in
+  let '(x1, heldA) := getlids_detach x in
+  let '(x2, heldB) := getlids_detach x1 in
+  let '(x3, ansB) := getlids_publish x2 heldB in
+  let '(x4, ansA) := getlids_publish x3 heldA in
+  ansB = [1%nat] /\ ansA = [1%nat; 2%nat]
+  /\ tl_sorted (merge_tok x) = [1%nat; 2%nat] /\ tl_sorted (merge_tok (merge_tok x)) = [1%nat; 2%nat].
+Proof. vm_compute. repeat split. Qed.
